@@ -342,6 +342,64 @@ def exStable : Option State :=
 example : (exStable.map (fun s => (s.status, (s.ops "A").map (·.paused), (s.ops "B").map (·.paused)))) =
     some ([("A", exA), ("B", exB)], some false, some true) := by decide
 
+private theorem exStable_reachable : ∀ s, exStable = some s → Reachable 64 s := by
+  intro s h
+  unfold exStable at h
+  -- every prefix of a successful run is a chain of steps
+  have key : ∀ (ls : List Label) (t t' : State), Reachable 64 t → run 64 t ls = some t' → Reachable 64 t' := by
+    intro ls
+    induction ls with
+    | nil => intro t t' ht h; simp only [run, Option.some.injEq] at h; subst h; exact ht
+    | cons l rest ih =>
+      intro t t' ht h
+      simp only [run] at h
+      cases hs : step 64 t l with
+      | none => simp [hs] at h
+      | some t1 => simp only [hs] at h; exact ih t1 t' (Reachable.step l ht hs) h
+  exact key _ init s Reachable.init h
+
+private theorem exStable_stable : ∀ s, exStable = some s → Stable 64 s := by
+  intro s h
+  simp [exStable, run, step, init, updOp, touchVal, Rec.dead, Rec.deadline, Status.patch, Status.set,
+    decideCore, Status.peers, Rec.toPeer, livePeers, deadPeers, prioPeers, samePeers, Peer.isDead, Peer.deadline, minList] at h
+  subst h
+  have hops : ∀ (i : Identity) (op : Op),
+      updOp (updOp (updOp (updOp (fun _ => none) "A" { prio := 100, lifetime := 10, alive := true, paused := true, seen := none })
+        "B" { prio := 10, lifetime := 8, alive := true, paused := true, seen := none })
+        "A" { prio := 100, lifetime := 10, alive := true, paused := false, seen := some (2, 0) })
+        "B" { prio := 10, lifetime := 8, alive := true, paused := true, seen := some (2, 0) } i = some op →
+      (i = "A" ∧ op = { prio := 100, lifetime := 10, alive := true, paused := false, seen := some (2, 0) }) ∨
+      (i = "B" ∧ op = { prio := 10, lifetime := 8, alive := true, paused := true, seen := some (2, 0) }) := by
+    intro i op h
+    unfold updOp at h
+    by_cases hB : i = "B"
+    · right; subst hB; simp at h; exact ⟨rfl, h.symm⟩
+    · by_cases hA : i = "A"
+      · left; subst hA; simp at h; exact ⟨rfl, h.symm⟩
+      · simp [hA, hB] at h
+  refine ⟨⟨?_, ?_, ?_⟩, ?_⟩
+  · intro i op hi ha
+    rcases hops i op hi with ⟨rfl, rfl⟩ | ⟨rfl, rfl⟩
+    · exact ⟨exA, by simp [exA], rfl, by decide⟩
+    · exact ⟨exB, by simp [exB], rfl, by decide⟩
+  · intro j r hm hd
+    simp only [List.mem_cons, Prod.mk.injEq, List.mem_nil_iff, or_false] at hm
+    rcases hm with ⟨rfl, rfl⟩ | ⟨rfl, rfl⟩
+    · exact ⟨{ prio := 100, lifetime := 10, alive := true, paused := false, seen := some (2, 0) }, by simp [updOp], rfl, rfl⟩
+    · exact ⟨{ prio := 10, lifetime := 8, alive := true, paused := true, seen := some (2, 0) }, by simp [updOp], rfl, rfl⟩
+  · intro i j oi oj hi hj _ _ hp
+    rcases hops i oi hi with ⟨rfl, rfl⟩ | ⟨rfl, rfl⟩ <;> rcases hops j oj hj with ⟨rfl, rfl⟩ | ⟨rfl, rfl⟩ <;> simp_all
+  · intro i op hi _
+    rcases hops i op hi with ⟨rfl, rfl⟩ | ⟨rfl, rfl⟩ <;> exact ⟨0, rfl, fun _ _ _ => rfl⟩
+
+/-- `exactly_top` is not vacuous: its hypotheses hold in the state reached by two starts, two keep-alives and two
+    deliveries, and there A (priority 100) is active while B (priority 10) is paused. -/
+example : ∃ s, exStable = some s ∧ Reachable 64 s ∧ Stable 64 s ∧ ExactlyTop s := by
+  cases h : exStable with
+  | none => exact absurd h (by decide)
+  | some s => exact ⟨s, rfl, exStable_reachable s h, exStable_stable s h, exactly_top (exStable_reachable s h) (exStable_stable s h)⟩
+
+
 -- `paused_iff` on a status with an unknown key swallowed, a missing lifetime, a dead record and the own record
 example : decideEv 64 [("A", .record { priority := some (.num 100), lifetime := none, lastseen := .at 0, identityKey := false }),
                       ("G", .record { priority := some (.num 500), lifetime := some (.num 1), lastseen := .at 0, identityKey := false }),
